@@ -28,7 +28,7 @@ Module IntervalOps.
 Import IntervalEnv_gen FpEnvOps.
 Theorem C12_interval_ops_restore_mode :
   forall op p, In (op, p) all_paths ->
-  forall (mode : Type) (leak : String.string -> mode -> mode) (m : mode), run_path mode leak m p = m.
+  forall (mode : Type) (leak : String.string -> mode -> mode) (stale m : mode), run_path mode leak stale m p = m.
 Proof. exact interval_ops_restore_mode. Qed.
 
 (* [paths_nonvacuous] (Conc/FpEnvOps.v): the table has >= 25 operations and >= 30 paths, nth_root's only path is
@@ -37,7 +37,8 @@ Theorem C12_interval_paths_nonvacuous : paths_nonvacuous.
 Proof. exact interval_paths_nonvacuous. Qed.
 
 (* [unbracketed_leaks_stmt]: the save / restore bracket is needed - without the restore (the code before the repair), with the
-   path ending between the call and the restore, or with the bracket after the call, [path_ok] fails and the caller is left
+   path ending between the call and the restore, with the bracket after the call, or with the mode saved ONCE in a function-local
+   static (then the first caller's mode is put back into every later caller), [path_ok] fails and the caller is left
    in whatever mode the primitive left *)
 Theorem C12_unbracketed_leaks : unbracketed_leaks_stmt.
 Proof. exact unbracketed_leaks. Qed.
